@@ -6,6 +6,8 @@
 //   barrier <mutex|spin|spiny> <n> <gens>   scenario kind: n threads cross the barrier gens times
 //                                   (spin = wait(), spiny = wait_yield())
 //   run seed=<n> [stick=<0..255>] [spur=<k>] [max=<steps>] [sched=<csv>]
+//   explore runs=<n> [spur=<k>]     depth-first enumeration of all schedules (up to n runs);
+//                                   answer `explored=<runs> complete=<0|1> violated=<0|1>`
 //   sched                           explicit schedule (draw list) reproducing the last run
 //
 // Main (thread 0) spawns the threads (ids 1..) and joins them.
@@ -211,30 +213,38 @@ static bool parse_semop(const std::string& t, SemOp& o) {
     return false;
 }
 
-static std::string do_run(const std::vector<std::string>& t) {
-    if (sc.kind == Scenario::None) return "bad-op";
-    Sched& S = Sched::get();
-    uint64_t seed = 1, stick = 0, spur = 0, maxs = 4000;
+struct RunParams {
+    uint64_t seed = 1, stick = 0, spur = 0, maxs = 4000, maxruns = 2000;
     std::vector<uint64_t> sched;
+};
+
+static bool parse_params(const std::vector<std::string>& t, RunParams& p) {
     for (size_t i = 1; i < t.size(); ++i) {
         uint64_t v;
-        if (get_u64(t[i], "seed", v)) seed = v;
-        else if (get_u64(t[i], "stick", v)) stick = v;
-        else if (get_u64(t[i], "spur", v)) spur = v;
-        else if (get_u64(t[i], "max", v)) maxs = v;
+        if (get_u64(t[i], "seed", v)) p.seed = v;
+        else if (get_u64(t[i], "stick", v)) p.stick = v;
+        else if (get_u64(t[i], "spur", v)) p.spur = v;
+        else if (get_u64(t[i], "max", v)) p.maxs = v;
+        else if (get_u64(t[i], "runs", v)) p.maxruns = v;
         else if (t[i].compare(0, 6, "sched=") == 0) {
             std::string s = t[i].substr(6);
             if (s != "-") {
-                for (char ch : s) if (!isdigit(static_cast<unsigned char>(ch)) && ch != ',') return "bad-op";
+                for (char ch : s) if (!isdigit(static_cast<unsigned char>(ch)) && ch != ',') return false;
                 std::istringstream is(s);
                 std::string w;
-                while (std::getline(is, w, ',')) { if (w.empty() || w.size() > 18) return "bad-op"; sched.push_back(std::stoull(w)); }
+                while (std::getline(is, w, ',')) { if (w.empty() || w.size() > 18) return false; p.sched.push_back(std::stoull(w)); }
             }
-        } else return "bad-op";
+        } else return false;
     }
-    if (stick > 255 || maxs > 100000) return "bad-op";
-    S.seed = seed; S.sched = sched; S.stick = static_cast<unsigned>(stick); S.spur = static_cast<unsigned>(spur);
-    S.max_steps = maxs;
+    return p.stick <= 255 && p.maxs <= 100000 && p.maxruns <= 10000000;
+}
+
+// one run of the scenario; returns the answer line, the oracle verdicts are left in `viols`
+static std::string execute(const RunParams& p, bool tail_zero) {
+    Sched& S = Sched::get();
+    S.seed = p.seed; S.sched = p.sched; S.stick = static_cast<unsigned>(p.stick); S.spur = static_cast<unsigned>(p.spur);
+    S.max_steps = p.maxs;
+    S.tail_zero = tail_zero;
     viols.clear();
     std::ostringstream os;
     if (sc.kind == Scenario::Sem) {
@@ -286,11 +296,43 @@ static std::string do_run(const std::vector<std::string>& t) {
            << " step=" << step << " acts=" << run.action_calls;
         br = nullptr;
     }
-    last_resolved = S.resolved;
     os << " steps=" << S.steps << " |";
     for (const auto& ev : S.trace) os << ' ' << ev;
-    vh::answer(os.str());
+    return os.str();
+}
+
+static std::string do_run(const std::vector<std::string>& t) {
+    if (sc.kind == Scenario::None) return "bad-op";
+    RunParams p;
+    if (!parse_params(t, p)) return "bad-op";
+    std::string ans = execute(p, false);
+    last_resolved = Sched::get().resolved;
+    vh::answer(ans);
     for (const auto& m : viols) vh::viol(m);
+    return "";
+}
+
+// systematic exploration of all schedules (depth first) up to `runs` runs
+static std::string do_explore(const std::vector<std::string>& t) {
+    if (sc.kind == Scenario::None) return "bad-op";
+    RunParams p;
+    if (!parse_params(t, p) || !p.sched.empty()) return "bad-op";
+    p.stick = 0;
+    std::vector<std::string> first_viols;
+    auto res = detsched::explore([&](const std::vector<uint64_t>& sched) {
+        RunParams q = p;
+        q.sched = sched;
+        execute(q, true);
+        if (!viols.empty() && first_viols.empty()) first_viols = viols;
+        return !viols.empty();
+    }, p.maxruns);
+    std::ostringstream os;
+    os << "explored=" << res.runs << " complete=" << (res.complete ? 1 : 0) << " violated=" << (res.violated ? 1 : 0);
+    vh::answer(os.str());
+    if (res.violated) {
+        last_resolved = res.witness;
+        for (const auto& m : first_viols) vh::viol(m + " [schedule sched=" + vh::show_csv(res.witness) + "]");
+    }
     return "";
 }
 
@@ -318,6 +360,9 @@ int main(int argc, char** argv) {
             }
         } else if (t[0] == "run") {
             out = do_run(t);
+            if (out.empty()) continue;
+        } else if (t[0] == "explore") {
+            out = do_explore(t);
             if (out.empty()) continue;
         } else if (t[0] == "sched" && t.size() == 1) {
             out = vh::show_csv(last_resolved);
